@@ -461,6 +461,15 @@ def make_graph(ctx: Ctx, gspec: dict, flavour: str = "sync"):
     if gspec.get("edges") is not None:
         kw["edges"] = [tuple(e[:2]) + ((list(e[2]),) if len(e) > 2 else ()) for e in gspec["edges"]]
     g = Graph(nodes, **kw)
+    if not gspec.get("no_decoy"):
+        # a SIBLING derivation from the same base object, made first and then dropped: it binds every plain input the program
+        # itself leaves unbound.  Derived graphs do not influence one another, so nothing below may notice it.
+        try:
+            free = [p for p in g.inputs.all if p not in (gspec.get("bind") or {}) and p not in set(g.outputs)]
+            if free:
+                g.bind(**{p: ("decoy", p) for p in free})
+        except Exception:  # noqa: BLE001 - a rejected decoy binding changes nothing either
+            pass
     if gspec.get("bind"):
         g = g.bind(**{k: T(v) for k, v in gspec["bind"].items()})
     if gspec.get("select") is not None:
